@@ -409,7 +409,7 @@ func Numberish(t *rapid.T, label string) string {
 	var body string
 	switch rapid.IntRange(0, 11).Draw(t, label+"body") {
 	case 0, 1, 2:
-		body = rapid.SampledFrom([]string{"0", "1", "2", "7", "10", "12", "007", "100", "4294967296", "00"}).Draw(t, label+"int")
+		body = rapid.SampledFrom([]string{"0", "1", "2", "7", "10", "12", "007", "100", "4294967296", "00", "9223372036854775808", "9999999999999999999", "18446744073709551616", "123456789012345678901"}).Draw(t, label+"int")
 	case 3, 4:
 		body = rapid.SampledFrom([]string{"1", "0", "12", ""}).Draw(t, label+"ip") + "." + rapid.SampledFrom([]string{"5", "0", "25", "125", "", "50"}).Draw(t, label+"fp")
 	case 5:
